@@ -126,11 +126,13 @@ func (l *lexer) Lex(lval *yySymType) int {
 	switch tok := (<-l.token).(type) {
 	case token:
 		verifPoint(2, l.cancel)
+		verifToken(l, tok.typ, tok.pos, tok.val, nil)
 		l.last.Store(tok.Pos())
 		lval.token = tok
 		return tok.typ
 	case word:
 		verifPoint(2, l.cancel)
+		verifToken(l, tok.typ, tok.Pos(), "", tok.val)
 		l.last.Store(tok.Pos())
 		lval.word = tok.val
 		return tok.typ
